@@ -5,7 +5,7 @@ From ApolloVerif Require Import Base.Chars Lex.Item Lex.Fun Parse.Outcome Parse.
   Parse.Keywords Parse.Grammar Parse.Generic Parse.Atoms Parse.Entry Parse.LosslessDefs Parse.Lossless
   Parse.TrackerInst Parse.SilentInst Parse.EntryEnd Parse.Terminates Parse.RefGrammar Parse.RefLib Parse.RefLenient
   Parse.RefLenientProofs Parse.RefLinkBase Parse.RefLinkLoops Parse.RefLinkType Parse.RefLinkValue Parse.RefLinkExec
-  Parse.RefLinkSel Parse.RefLinkDefs Parse.RefLinkTS.
+  Parse.RefLinkSel Parse.RefLinkEntry Parse.RefLinkDefs Parse.RefLinkTS.
 
 (* ------------------------------------------------------------------ keywords *)
 Lemma rl_tok_not_kw k d kw : rl_tok_ok k d = true -> k <> TkName -> rl_is_kw_str kw -> p_str_eqb d kw = false.
@@ -653,4 +653,48 @@ Proof.
       destruct (IH _ _ _ _ E2 Hok1 Ht1 n Hn1) as [_ Hc2].
       assert (Hroom1 : rl_roomy s1) by (eapply rl_roomy_step; eauto).
       rewrite <- Hr1 in Eq2. rewrite (Hc2 Hroom1 ds' Eq2). exact He1.
+Qed.
+
+(* ------------------------------------------------------------------ Parser::parse from the initial state *)
+Theorem rl_document_entry f dbg rl items u s' : rl_stream items ->
+  g_document f (p_init_state dbg rl items) = POk (u, s') ->
+  (ps_errors s' = [] -> exists ds, rg_document_r (rgl_definition LP) (rl_sig items) = RgOk ds) /\
+  (rl_weight (rl_sig items) < rl ->
+   forall ds, rg_document_r (rgl_definition LP) (rl_sig items) = RgOk ds -> ps_errors s' = []).
+Proof.
+  intros Hstr E. rewrite g_document_unfold in E. unfold p_node in E. apply bind_ok in E as (? & s1 & E1 & E).
+  destruct (rl_start_node_init _ _ _ _ _ _ Hstr E1) as (Hok1 & Hsig1 & He1 & Hr1).
+  apply bind_ok in E as (? & s9 & E & Ef). apply bind_ok in Ef as (? & s10 & Ef & Er). unfold p_ret in Er.
+  injection Er as _ <-. apply rl_finish_node_obs in Ef. destruct Ef as (_ & _ & Hef & _). rewrite Hef. clear Hef.
+  assert (Ht1 : tr_ok (ps_rec s1)) by (rewrite Hr1; unfold tr_ok; cbn; lia).
+  pose proof Hok1 as [Hinv1 Ha1]. destruct (rl_inv_cur _ Hinv1) as (t & Hc1 & Hi1 & _).
+  unfold p_bind at 1 in E. rewrite (peek_some t s1 Hc1) in E.
+  apply bind_ok in E as (? & s2 & E2 & E). apply bind_ok in E as (? & s3 & E3 & E4).
+  apply rl_push_ignored_obs in E4. destruct E4 as (_ & _ & He4 & _). rewrite He4. clear He4.
+  unfold p_peek_while in E3. apply bind_ok in E3 as (u3 & s3' & E3 & Er). unfold p_ret in Er. injection Er as _ ->.
+  rewrite <- Hsig1.
+  assert (Hroomy : rl_weight (rl_sigs s1) < rl -> rl_roomy s1).
+  { intros Hw. unfold rl_roomy. rewrite Hr1. cbn. lia. }
+  destruct (tkind_eqb (tok_kind t) TkEof) eqn:Hk.
+  - (* an empty document is an error *)
+    apply tkind_eqb_eq in Hk. rewrite Hk in E2. cbn [p_when] in E2.
+    pose proof (rl_err_run _ _ _ Hok1 E2) as Hd.
+    assert (Hx2 : rl_ext s1 s2) by exact (proj2 (post_returns _ _ _ _ (proj2 rl_gen_err) s1 I _ _ E2)).
+    assert (Ht2 : tr_ok (ps_rec s2)) by exact (proj1 (rl_gen_run _ _ _ _ rl_gen_err E2 Ht1)).
+    destruct (rl_gen_run _ _ _ _ (rl_gen_doc_loop f f tt) E3 Ht2) as (_ & _ & _ & Hx3).
+    rewrite (rl_sigs_eof _ _ Hinv1 Hc1 Hk). split.
+    + intros He. exfalso. apply Hd. assert (He' : ps_errors s3 = ps_errors s1) by congruence.
+      exact (proj1 (rl_ext_split _ _ _ Hx2 Hx3 He')).
+    + intros _ ds Hq. discriminate Hq.
+  - assert (Hne : tok_kind t <> TkEof) by (intros H; apply tkind_eqb_eq in H; congruence).
+    assert (Hw : match tok_kind t with TkEof => true | _ => false end = false) by (destruct (tok_kind t); try reflexivity; contradiction).
+    rewrite Hw in E2. cbn [p_when] in E2. unfold p_ret in E2. injection E2 as _ <-.
+    destruct (rl_document_loop f f _ _ _ _ E3 Hok1 Ht1 (length (rl_sigs s1)) (le_n _)) as [Hs Hc].
+    destruct (rl_sigs_tok _ _ Hinv1 Hc1 Hne) as (Hsig & _ & _).
+    assert (Hdoc : rg_document_r (rgl_definition LP) (rl_sigs s1)
+                   = rg_defs_f (length (rl_sigs s1)) (rgl_definition LP) (rl_sigs s1)).
+    { rewrite Hsig. reflexivity. }
+    rewrite Hdoc. split.
+    + intros He. apply Hs. congruence.
+    + intros Hwt ds Hq. rewrite (Hc (Hroomy Hwt) ds Hq). exact He1.
 Qed.
